@@ -28,33 +28,6 @@ fn builder_new_is_empty() {
     assert!(b.finish().types.is_empty());
 }
 
-/// BOUNDED (<= 2 registrations out of 2 distinct values): finish lists the values at their indices
-#[kani::proof]
-#[kani::unwind(5)]
-fn builder_finish_lists_values() {
-    let mut b = PortableRegistryBuilder::new();
-    let n: usize = kani::any();
-    kani::assume(n <= 2);
-    let mut i = 0;
-    while i < n {
-        let k: u8 = kani::any();
-        kani::assume(k < 2);
-        let announced = b.next_type_id();
-        let id = b.register_type(prim_type(k));
-        assert!(id <= announced, "an id is the announced next id or an earlier one");
-        i += 1;
-    }
-    let r: PortableRegistry = b.finish();
-    let len = b.next_type_id() as usize;
-    assert!(r.types.len() == len, "finish: one entry per value");
-    let mut j = 0;
-    while j < len {
-        assert!(r.types[j].id as usize == j, "finish: entry j carries id j");
-        assert!(Some(&r.types[j].ty) == b.get(j as u32), "finish: entry j is the value at index j");
-        j += 1;
-    }
-}
-
 // a probe type whose into_portable records the order in which it was called
 static mut CALLS: u32 = 0;
 struct Probe(u8);
